@@ -69,10 +69,11 @@ TABLE = {
           ('time_series_to_plain_deeply_equal', 'ts_to_cg_deep_eq_closed', []),
           ('time_series_to_plain_and_back', 'ts_to_cg_to_ts_closed', []),
           ]),
- 'C08': ('Base Digraph Names Graph GraphObs GraphInv Matrix MatrixProofs Skeleton SkeletonProofs Closed',
+ 'C08': ('Base Digraph Names Graph GraphObs GraphInv Matrix MatrixProofs Skeleton SkeletonProofs Closed TSGraph LagMatrix LagMatrixProofs',
          'C08 — matrix, networkx, GML and skeleton interchange reconstruct an equal graph.\n'
-         '    GML text and the lagged matrices (to_numpy_by_lag / from_adjacency_matrices) are not modelled here: the former is exercised,\n'
-         '    the latter is covered by adjacency_matrices in the time-series model (C14) and by the round-trip predicate of the check.',
+         '    GML text is not modelled (exercised through the networkx form). The lagged matrices (to_numpy_by_lag / from_adjacency_matrices)\n'
+         '    are modelled in LagMatrix.v at the template level of TSGraph.v; with validate=True the round trip is refused exactly when the\n'
+         '    minimal graph has a directed cycle (C02 requires that refusal; lag_c08_clause_with_validation_refuted is the witness).',
          [('matrix_entry_is_one_iff_edge', '@matrix_entry Names.parse', []),
           ('matrix_is_square_and_binary', '@matrix_shape Names.parse', []),
           ('directed_undirected_graphs_are_representable', '@to_numpy_total Names.parse', []),
@@ -85,6 +86,19 @@ TABLE = {
           ('cyclic_graph_matrix_refused_with_validation', 'matrix_roundtrip_cyclic_refused_closed', []),
           ('networkx_round_trip', 'nx_roundtrip_closed', []),
           ('constructed_graph_satisfies_invariant', 'from_matrix_inv_closed', []),
+          ('lagged_matrices_round_trip_to_the_minimal_graph', 'lag_matrices_roundtrip', []),
+          ('lagged_matrices_round_trip_refused_iff_minimal_graph_cyclic', 'lag_matrices_roundtrip_cyclic', []),
+          ('lagged_matrices_round_trip_without_construct_minimal', 'lag_matrices_roundtrip_full', []),
+          ('lagged_matrix_entry_is_one_iff_template', 'lag_matrices_entry_spec', []),
+          ('lagged_matrices_key_order', 'lag_matrices_key_order', []),
+          ('lagged_matrices_refuse_other_edge_types', 'lag_matrices_refuse_other_types', []),
+          ('from_adjacency_matrices_exact_characterisation', 'from_adjacency_matrices_spec', []),
+          ('from_adjacency_matrices_refuses_future_lags', 'from_adjacency_matrices_future', []),
+          ('from_adjacency_matrices_refuses_bad_names', 'from_adjacency_matrices_bad_names', []),
+          ('from_adjacency_matrices_refuses_bad_shapes', 'from_adjacency_matrices_bad_shapes', []),
+          ('lag_c08_clause_with_validation_refuted', 'c08_roundtrip_refuted', ['c08_roundtrip_statement']),
+          ('lag_round_trip_needs_contemporaneous_undirected_edges_refuted', 'roundtrip_any_und_refuted', ['roundtrip_any_und_statement']),
+          ('lag_round_trip_needs_an_edge_refuted', 'roundtrip_edgeless_refuted', ['roundtrip_edgeless_statement']),
           ]),
  'C09': ('Base Digraph Names Graph GraphObs GraphInv Matrix Skeleton SkeletonProofs Closed',
          'C09 — the skeleton is a live, purely undirected image of the graph.\n'
@@ -174,7 +188,7 @@ TABLE = {
           ('graph_parents_view_is_digraph_parents', '@parents_bridge', []),
           ('reachable_validated_states_are_well_formed_dags', '@reachable_validated_dag', []),
           ]),
- 'C11': ('Base Digraph DSep DSepProofs Names Graph GraphObs GraphInv Bridge BridgeProofs',
+ 'C11': ('Base Digraph DSep DSepProofs Moral MoralProofs Names Graph GraphObs GraphInv Bridge BridgeProofs',
          'C11 — d-separation answers match the graphical definition.\n'
          '    networkx is modelled by the textbook definition [dsep] (every path between X and Y is blocked by Z); [dsepb]\n'
          '    is its executable form, compared with is_d_separated exhaustively by the correspondence check.',
@@ -185,8 +199,14 @@ TABLE = {
           ('d_separation_is_symmetric', '@dsep_sym', []),
           ('minimal_separator_checker', '@min_sepb_spec', []),
           ('adjacent_nodes_are_never_separated', '@adjacent_never_separated', []),
-          ('get_d_separation_set_minimal_on_all_dags_le4', 'min_dsep_set_partial', []),
-          ('is_minimally_d_separated_algorithm_le4', 'nx_min_sepb_partial', []),
+          ('moral_ancestral_graph_separation_iff_d_separation', '@moral_separation_iff_dsep', []),
+          ('moral_separation_checker_equals_path_checker', '@moral_sepb_correct', []),
+          ('bfs_with_marks_computes_the_touched_boundary', '@bfs_marks_spec', []),
+          ('get_d_separation_set_is_a_minimal_separator_on_every_dag', '@min_dsep_set_min_sep', []),
+          ('get_d_separation_set_is_inclusion_minimal', '@min_dsep_set_inclusion_minimal', []),
+          ('no_removable_node_iff_inclusion_minimal', '@min_sep_iff_inclusion_minimal', []),
+          ('is_minimally_d_separated_algorithm_equals_the_definition_on_every_dag', '@nx_min_sepb_eq', []),
+          ('is_minimally_d_separated_true_exactly_for_minimal_separators', '@nx_min_sepb_spec', []),
           ('applies_to_every_reachable_state', '@reachable_dsepb_correct', []),
           ]),
  'C12': ('Base Dec Names NamesProofs Graph GraphObs GraphInv GraphInvProofs',
